@@ -113,6 +113,19 @@ def push_sequences(world, e, limit=64):
             return [[]]
         if x.op == "rec":
             return [[]]  # loop-carried prefix: unknown earlier elements
+        # a Vec handed back by a workspace helper: the helper's own alternatives
+        c = x.args[0] if x.op == "proj" and x.info == "ok" else x
+        if c.op == "call" and world.callee_body(c) is not None and depth < 8:
+            alts = world._ok_alts(world.expand(c), "ok", 0, False) if x.op == "proj" else [world.expand(c)]
+            res = []
+            for a in alts:
+                if a is c:
+                    return [[x]]
+                for sq in go(a, depth + 1):
+                    if sq not in res:
+                        res.append(sq)
+            if res:
+                return res
         return [[x]]
     return go(e, 0)
 
